@@ -393,7 +393,7 @@ def run(tier, seed):
                 for dims in dimsl:
                     if 'a' in seq and not special: continue        # DO ... STEP arrays only exist in special nets (grammar)
                     J.append(('ir', (seq, wild, special, dims)))
-    ntext = 40 if tier == 'quick' else 300
+    ntext = 40 if tier == 'quick' else 2000
     J += [('text', (k, seed)) for k in range(ntext)]
     rep = common.pmap(dispatch, J, chunksize=4)
     cov = {
